@@ -40,7 +40,7 @@ NOINIT = object()
 VALUES = [0, 1, True, False, 1.0, None, '', (1,), (1.0,), [1], 'a', NAN, 2, -1]
 NUMERIC = [0, 1, True, False, 1.0, 2, -1, 3, 2.0]
 FKINDS = ['pass', 'reject_odd', 'edit_new', 'edit_inplace', 'pass', 'edit_empty', 'edit_clear', 'edit_strip', 'negate',
-          'edit_userdict', 'edit_chainmap']
+          'edit_userdict', 'edit_chainmap', 'edit_names']
 FORMS = ['list', 'tuple', 'single', 'list', 'iter']     # 'iter': deprecated, still accepted
 
 
@@ -81,6 +81,9 @@ def apply_filter(kind, n, data, counter):
         return {k: v for k, v in data.items() if k == 'value'}
     if kind == 'negate':
         return {**data, 'value': not data.get('value')}
+    if kind == 'edit_names':
+        # no data item name is reserved: items named like parameters of the delivery path
+        return {**data, 'etype': f"t{n}", 'data': n, 'dest': 'nobody', 'name': None}
     if kind == 'edit_userdict':
         # any MutableMapping returned by a filter is the new event data, not only a dict
         return collections.UserDict({**data, f"u{n}": 'ud'})
@@ -94,7 +97,7 @@ def gen(ctx):
     n = 350 if ctx.tier == 'quick' else 70000
     for _ in range(n):
         sender = rng.choice(['src', 'src', 'input', 'counter', 'func', 'not', 'inputexp', 'poll',
-                             'oasync'])
+                             'oasync', 'initasync'])
         alphabet = range(len(NUMERIC)) if sender == 'counter' else range(len(VALUES))
         length = rng.choice([1, 2, 3, 5, 8, 13, 20, 40])
         vals = []
@@ -117,11 +120,17 @@ def gen(ctx):
                     for _ in range(k)]
         case = {'sender': sender, 'values': vals, 'on_output': evlist(),
                 'on_every': evlist() if sender in ('src', 'input', 'counter', 'inputexp', 'poll',
-                                                   'oasync') else [],
+                                                   'oasync', 'initasync') else [],
                 'form': [rng.choice(FORMS), rng.choice(FORMS)],
                 'initdef': rng.random() < 0.5}
         if sender == 'src' and rng.random() < 0.4:
             case['stop_value'] = rng.choice(alphabet)
+        if sender == 'initasync':
+            # initialised once, by a coroutine (result = 2nd value) or - when that fails or
+            # takes too long - by the default (1st value, any kind of object incl. falsy ones)
+            case['ia_mode'] = rng.choice(['ok', 'fail', 'timeout', 'fail', 'timeout'])
+            if len(vals) < 2:
+                vals.append(rng.choice(alphabet))
         if sender == 'oasync' and rng.random() < 0.5:
             # the start-up fails after the output block was started: it is never initialised,
             # still it processes its stop_data and its output (number of active runs) changes
@@ -144,6 +153,14 @@ def build_and_run(case, ctx):
             hist.log('recv', self.name, etype, dict(data),
                      snd.output if snd is not None else None)
             return None
+
+    class DestP(edzed.AddonPersistence, Dest):
+        """A destination with the persistence add-on in its hierarchy (as Input, Counter, FSM)."""
+        def _get_state(self):
+            return self._output
+
+        def _restore_state(self, state):
+            self.set_output(state)
 
     class Src(edzed.SBlock):
         def init_regular(self):
@@ -204,7 +221,7 @@ def build_and_run(case, ctx):
 
     def build():
         for i in range(3):
-            Dest(f"d{i}", x_sender=sender_ref)
+            (DestP if i == 1 else Dest)(f"d{i}", x_sender=sender_ref)
         oo = mk_events(case['on_output'], 'o', case['form'][0])
         oe = mk_events(case['on_every'], 'e', case['form'][1])
         kind = case['sender']
@@ -241,6 +258,18 @@ def build_and_run(case, ctx):
                         super().start()
                         raise RuntimeError('vf: start fails')
                 BadStart('badstart')
+        elif kind == 'initasync':
+            second = copy.copy(pool[case['values'][1]])
+
+            async def init_coro(mode):
+                ctx.count('initasync_' + mode)
+                await asyncio.sleep(0.2 if mode != 'timeout' else 5.0)
+                if mode == 'fail':
+                    raise RuntimeError('vf: no first value')
+                return second
+            s = edzed.InitAsync('snd', init_coro=[init_coro, case['ia_mode']], init_timeout=1.0,
+                                initdef=copy.copy(first), on_output=oo, on_every_output=oe)
+            feeder = s
         elif kind == 'poll':
             # a sender with asynchronous first-value initialisation (AddonAsyncInit): every
             # polled value is assigned, equal to the previous one or not
@@ -301,6 +330,9 @@ def build_and_run(case, ctx):
         if case['sender'] == 'poll':
             await asyncio.sleep(len(case['values']) + 0.5)      # one value per second
             await harness.settle(3)
+            return sim.alive()
+        if case['sender'] == 'initasync':
+            await asyncio.sleep(6.0)
             return sim.alive()
         if case['sender'] == 'oasync':
             for k, _idx in enumerate(case['values'][:6]):
@@ -448,6 +480,14 @@ def oracle(case, out, ctx):
                         f"assignment #{k}: at delivery the sender's output was {g[6]!r}, not {value!r}")
         if changed:
             retained = value
+    if case['sender'] == 'inputexp' and len(assigns) != len(case['values']):
+        # FSM-based sender: every accepted event ends with an output update (an assignment,
+        # changed or not) - the initialisation and each of the puts
+        raise core.Violation(
+            'assignment-missing',
+            f"InputExp sender: {len(case['values'])} accepted transitions (values "
+            f"{[VALUES[i] for i in case['values']][:8]!r}), {len(assigns)} output assignments "
+            f"observed: {[a[0] for a in assigns][:8]!r}")
     snd = out['objs'][0]
     if not strict_eq(snd.output, retained):
         raise core.Violation('final-output', f"sender output {snd.output!r}, reference {retained!r}")
